@@ -153,6 +153,19 @@ func decStmts(body []ast.Stmt, where string) []string {
 				out = append(out, "NErrCheck")
 				continue
 			}
+			// if n.P == token.NoPos { out.O = true }
+			if s.Init == nil && s.Else == nil && len(s.Body.List) == 1 {
+				if be, ok := s.Cond.(*ast.BinaryExpr); ok && be.Op == token.EQL && src(be.Y) == "token.NoPos" {
+					if cp, ok := cpathOf(be.X, "n"); ok {
+						if as, ok := s.Body.List[0].(*ast.AssignStmt); ok && len(as.Lhs) == 1 && len(as.Rhs) == 1 && src(as.Rhs[0]) == "true" {
+							if op, ok := cpathOf(as.Lhs[0], "out"); ok {
+								out = append(out, fmt.Sprintf("NSet %s (VNoPos %s)", qlist(op), qlist(cp)))
+								continue
+							}
+						}
+					}
+				}
+			}
 			// if n.P != nil { child, err := f.decorateNode(n, "K", "F", "T", n.P); errcheck; out.O = child.(T) }
 			if s.Init == nil && s.Else == nil && len(s.Body.List) == 3 {
 				if be, ok := s.Cond.(*ast.BinaryExpr); ok && be.Op == token.NEQ && src(be.Y) == "nil" {
